@@ -59,10 +59,17 @@ func vfGenC01Len(t *rapid.T, label string, p, c, cap int) int {
 	return n
 }
 
+// Both sides refuse frames longer than 256 KiB (maxMsgLength), whatever the options say: the largest
+// client packet size whose WRITE requests and DATA replies still fit is a little below that.
+const vfC01MaxPacket = 262000
+
 func vfGenC01(t *rapid.T) vfCaseC01 {
 	c := vfCaseC01{Backend: rapid.SampledFrom([]string{"os", "rs-split", "rs-rw", "peer"}).Draw(t, "backend"), Alloc: rapid.Bool().Draw(t, "alloc")}
-	c.MaxTx = rapid.SampledFrom([]uint32{32768, 32768, 40000, 65536}).Draw(t, "maxtx")
+	c.MaxTx = rapid.SampledFrom([]uint32{32768, 32768, 32768, 40000, 65536, 65536, 262144, 1 << 20}).Draw(t, "maxtx")
 	p := rapid.SampledFrom([]int{1, 2, 3, 7, 16, 100, 1000, 4096, 4096, 32768, int(c.MaxTx)}).Draw(t, "maxpacket")
+	if p > vfC01MaxPacket {
+		p = vfC01MaxPacket
+	}
 	c.Opts = vfOpts{MaxPacket: p, Conc: rapid.SampledFrom([]int{1, 2, 3, 8, 64}).Draw(t, "conc"), CRead: rapid.Bool().Draw(t, "cread"), CWrite: rapid.Bool().Draw(t, "cwrite"), Fstat: rapid.Bool().Draw(t, "fstat")}
 	cap := 192 * 1024
 	if vfThorough() {
@@ -70,6 +77,9 @@ func vfGenC01(t *rapid.T) vfCaseC01 {
 	}
 	if p <= 7 {
 		cap = 4096 // a one-byte packet per request: keep transfers affordable
+	}
+	if cap < 2*p+2 {
+		cap = 2*p + 2
 	}
 	cc := c.Opts.Conc
 	c.L0 = vfGenC01Len(t, "l0", p, cc, cap)
